@@ -93,7 +93,7 @@ func (b *Builder) Prefix(o interface{}, prefix string) {
 	case *Import:
 		x.prefix = prefix
 		// register import now that we know the prefix
-		delete(x.parent.imports, x.moduleName)
+		delete(x.parent.imports, " "+x.moduleName)
 		x.parent.imports[x.prefix] = x
 	case *BelongsTo:
 		x.prefix = prefix
@@ -145,7 +145,8 @@ func (b *Builder) Import(o interface{}, moduleName string, loader Loader) *Impor
 			parent.imports = make(map[string]*Import)
 		}
 		// register w/module name for now, but once prefix is known we adjust then
-		parent.imports[i.moduleName] = &i
+		// (under a key no prefix can be: the name of this module may be the prefix of another import)
+		parent.imports[" "+i.moduleName] = &i
 	}
 	return &i
 }
